@@ -269,6 +269,16 @@ Proof.
   apply dmerge_wf; [assumption|]. apply spec_override_ok. assumption.
 Qed.
 
+(** a context computed late (ancestors already concluded, memo dropped by clear()) is the same
+    as the one computed while every ancestor was pending, as long as clear() keeps the parent link *)
+Theorem late_context_eq : forall c root rev_path, clear_keeps_parent c = true ->
+  late_context c root rev_path = job_context c root (rev (map snd rev_path)).
+Proof.
+  intros c root rev_path HK. unfold job_context.
+  induction rev_path as [|[fl calls] r IH]; [reflexivity|].
+  cbn [late_context map rev snd]. rewrite HK, andb_false_r, fold_left_app, <- IH. reflexivity.
+Qed.
+
 Theorem exec_context_spec : forall c configured run_arg, run_config_first c = true ->
   wf configured -> wf run_arg -> exec_context c configured run_arg = Some (dmerge configured run_arg).
 Proof. intros c a b H Wa Wb. unfold exec_context. rewrite H. simpl. apply merge_binary; assumption. Qed.
@@ -472,4 +482,57 @@ Proof.
   exists empty_dict, empty_dict, w_tree. split; [reflexivity|]. split; [reflexivity|]. split.
   - split; [apply witness_wf|exact I].
   - destruct witness_tree as [H1 H2]. rewrite H1, H2. discriminate.
+Qed.
+
+(** late contexts, packaged *)
+Definition late_spec (root : value) (rev_path : list (bool * list uc_call)) : value :=
+  spec_job_context root (rev (map snd rev_path)).
+
+Lemma Forall_rev_map_snd : forall (P : list uc_call -> Prop) (l : list (bool * list uc_call)),
+  Forall (fun fc => P (snd fc)) l -> Forall P (rev (map snd l)).
+Proof.
+  intros P l F. rewrite Forall_forall in *. intros x Hx. apply in_rev in Hx.
+  apply in_map_iff in Hx. destruct Hx as [fc [<- Hin]]. exact (F _ Hin).
+Qed.
+
+Theorem late_context_fixed : forall root rev_path, wf root ->
+  Forall (fun fc => Forall wf_call (snd fc)) rev_path ->
+  late_context fixed root rev_path = Some (late_spec root rev_path).
+Proof.
+  intros. rewrite late_context_eq by reflexivity. apply job_context_fixed; [assumption|].
+  apply Forall_rev_map_snd. assumption.
+Qed.
+
+Theorem late_context_fixed_uc : forall root rev_path, wf root ->
+  Forall (fun fc => Forall wf_call (snd fc)) rev_path ->
+  late_context fixed_uc root rev_path = Some (late_spec root rev_path).
+Proof.
+  intros. rewrite late_context_eq by reflexivity. apply job_context_fixed_uc; [assumption|].
+  apply Forall_rev_map_snd. assumption.
+Qed.
+
+Theorem late_context_shipped_simple : forall root rev_path, wf root ->
+  Forall (fun fc => Forall wf_call (snd fc) /\ simple_calls (snd fc)) rev_path ->
+  late_context shipped root rev_path = Some (late_spec root rev_path).
+Proof.
+  intros. rewrite late_context_eq by reflexivity. apply job_context_shipped_simple; [assumption|].
+  apply (Forall_rev_map_snd (fun calls => Forall wf_call calls /\ simple_calls calls)). assumption.
+Qed.
+
+(** a clear() that also drops the parent link loses the overrides of the ancestors above a
+    concluded parent (the configuration of the seeded change C26b) *)
+Definition dropping : ctx_cfg :=
+  {| merge_variant := Fixed; update_plan := flat3; job_parent_first := true; run_config_first := true;
+     clear_keeps_parent := false |}.
+Definition w_late : list (bool * list uc_call) :=
+  [ (false, []);                                                          (* the late job *)
+    (true, [ {| uc_ctx := VDict [(kb, VAtom (AInt 2))]; uc_kw := empty_dict |} ]);   (* concluded parent *)
+    (false, [ {| uc_ctx := VDict [(ka, VAtom (AInt 1))]; uc_kw := empty_dict |} ]) ]. (* grand-parent *)
+
+Theorem late_dropping_refuted : exists root rev_path, wf root /\
+  Forall (fun fc => Forall wf_call (snd fc)) rev_path /\
+  late_context dropping root rev_path <> Some (late_spec root rev_path).
+Proof.
+  exists empty_dict, w_late. split; [reflexivity|]. split; [repeat constructor|].
+  vm_compute. discriminate.
 Qed.
